@@ -18,7 +18,7 @@ from __future__ import annotations
 import ast
 import itertools
 
-from .. import sym, uflsem
+from .. import sym, uflmodel, uflsem
 from ..flow import guards_at, must_pass
 from ..lift import Interp, LiftRaise, Obj, Unsupported
 from ..model import AnalysisError, norm
@@ -173,8 +173,8 @@ def run(ctx) -> Report:
         ip.class_models["MeshSequence"] = prog.get_class("ufl.domain.MeshSequence")
         return ip
 
-    def pb_obj(clsname, **attrs):
-        return Obj("pullback:" + clsname, __class__=prog.get_class(f"{MOD}.{clsname}"), **attrs)
+    def pb_obj(clsname, *args):
+        return uflmodel.make_pullback(prog, clsname, *args)
 
     def element(ref_shape, pullback=None, subs=()):
         size = 1
@@ -258,7 +258,7 @@ def run(ctx) -> Report:
                 subs.append(element(blk + (tdim,) * nmapped, pb_obj(cname)))
             total = sum(e.attrs["reference_value_size"] for e in subs)
             el = element((total,), None, subs)
-            pb = pb_obj("MixedPullback", _element=el)
+            pb = pb_obj("MixedPullback", el)
             el.attrs["pullback"] = pb
             r = T.symbolic("r", (total,))
             what = f"MixedPullback.apply gdim={gdim} tdim={tdim} sub-elements {[(c, e.attrs['reference_value_shape']) for (c, _, _), e in zip(layout, subs)]}"
@@ -338,7 +338,7 @@ def run(ctx) -> Report:
                 subs[b] = subs[a]  # the same element (equal and identical) at two positions, on two different meshes
             total = sum(e.attrs["reference_value_size"] for e in subs)
             el = element((total,), None, subs)
-            pb = pb_obj("MixedPullback", _element=el)
+            pb = pb_obj("MixedPullback", el)
             el.attrs["pullback"] = pb
             r = T.symbolic("r", (total,))
             what = f"MixedPullback.apply on a sequence of {len(layout)} meshes, gdim={gdim} tdim={tdim}, sub-elements {[c for c, _, _ in layout]}{' (positions ' + str(shared[0]) + ' hold the same element)' if shared else ''}"
@@ -390,8 +390,7 @@ def run(ctx) -> Report:
                 subs = [element(rs, pb_obj(cname)) for _ in range(nsub)]
                 size = subs[0].attrs["reference_value_size"]
                 el = element((size * nsub,), None, subs)
-                pb = pb_obj("SymmetricPullback")
-                ip.call_function(f_init, [el, dict(symm)], {}, self_obj=pb)
+                pb = uflmodel.make_pullback(prog, "SymmetricPullback", el, dict(symm), ip=ip)
                 el.attrs["pullback"] = pb
                 r = T.symbolic("r", (size * nsub,))
                 what = f"SymmetricPullback.apply gdim={gdim} tdim={tdim} symmetry={symm} (entries inserted {order}) sub pullback {cname}"
